@@ -64,9 +64,9 @@ type Outcome struct {
 	Ops        int
 	Log        []disk.LogEntry
 	// Results of faulted ops for C17
-	ErrAtFault bool
-	Model      *model.Model // nil when the model could no longer represent the file
-	Path       string
+	ErrAtFault  bool
+	Model       *model.Model // nil when the model could no longer represent the file
+	Path        string
 	FiredOps    []int
 	FiredFns    []string
 	WriterSteps int    // I/O steps before the final dump started
